@@ -147,7 +147,7 @@ def parse_sanitizer_log(text, repo):
 
 
 class ShardRunner:
-    def __init__(self, exe, cases, workdir, env=None, jobs=16, timeout=120, repo=None, tag="s"):
+    def __init__(self, exe, cases, workdir, env=None, jobs=16, timeout=120, repo=None, tag="s", per_process=False):
         self.exe = exe
         self.cases = cases
         self.workdir = workdir
@@ -156,6 +156,7 @@ class ShardRunner:
         if env:
             self.env.update(env)
         self.jobs = max(1, min(jobs, len(cases))) if cases else 1
+        self.per_process = per_process  # one driver process per case (TSan reports are attributed per process)
         self.timeout = timeout
         self.repo = repo or build.REPO
         self.tag = tag
@@ -244,9 +245,12 @@ class ShardRunner:
         return records
 
     def run(self):
-        shards = [[] for _ in range(self.jobs)]
-        for i, c in enumerate(self.cases):
-            shards[i % self.jobs].append(c)
+        if self.per_process:
+            shards = [[c] for c in self.cases]
+        else:
+            shards = [[] for _ in range(self.jobs)]
+            for i, c in enumerate(self.cases):
+                shards[i % self.jobs].append(c)
         records = {}
         with ThreadPoolExecutor(max_workers=self.jobs) as ex:
             for part in ex.map(lambda a: self._run_list(a[0], a[1]), list(enumerate(shards))):
